@@ -14,7 +14,7 @@ R7 assertion     : Response.user is the map of the used credential's user_handle
                    client's user_handle is user.id.
 Composition: the product capability(3) × residentKey(4) × requireResidentKey(2) is evaluated from the extracted tables.
 """
-from . import core, flow, names, summary
+from . import core, flow, names, normal, summary
 from .framework import where, short, api_name
 from .common import AUTH, CLIENT, ceremony, find_aggs, term_fields
 
@@ -51,46 +51,48 @@ def run(chk):
     chk.configs = ["all-features"]
     chk.explanation = __doc__
     S = summary.Summaries(p)
+    N = normal.Normalizer(p, S)
 
     # ---------------- T1
     T1 = {}
     mr = p.method(CLIENT, "map_rk")
     if chk.require("T1 map_rk", "T1|map_rk", mr, CLIENT, "Client::map_rk not found"):
         chk.touched(mr)
-        rv = variants_of(p, RKR)
-        outs = S.outcomes(mr)
-        crit_ok = True
-        for o in outs:
-            key = None
-            for t, labs, fn, w in o.conds:
-                if t[0] == "discr" and t[1][0] == "field" and t[1][2] == "resident_key" and labs[0] == "in":
-                    key = "absent" if labs[1:] == ("0",) else key
-                    crit = t[1][1]
-                    # criteria value: the request's criteria or an all-default value
-                    if not (is_call(crit, "Option::unwrap_or") and has(crit, lambda x: x == ("param", 2))):
-                        crit_ok = False
-                    else:
-                        dflt = crit[2][1]
-                        if not (dflt[0] == "agg" and all(is_call(v, "Default::default") or v == ("const", 0) or (v[0] == "agg" and v[2] in ("None", "Preferred")) for k, v in dflt[3] if k in ("resident_key", "require_resident_key"))):
-                            crit_ok = False
-                if t[0] == "discr" and t[1][0] == "field" and t[1][2] == "0" and labs[0] == "in" and len(labs) == 2:
-                    key = rv.get(labs[1])
-            v = o.value
+        # evaluate the extracted decision table on the finite product of abstract inputs
+        ASC = "passkey_types::webauthn::attestation::AuthenticatorSelectionCriteria"
+        asc = p.adts.get(ASC)
+        chk.require("T1 map_rk", "T1|AuthenticatorSelectionCriteria", asc, ASC, "AuthenticatorSelectionCriteria not found")
+        fields = [f["name"] for f in asc["variants"][0]["fields"]] if asc else []
+        some = lambda x: ("agg", "core::option::Option", "Some", (("0", x),))
+        none = ("agg", "core::option::Option", "None", ())
+
+        def classify(v):
             if v == ("const", 1):
-                val = "true"
-            elif v == ("const", 0):
-                val = "false"
-            elif is_call(v, "Option::is_some_and") and has(v, lambda x: x == ("field", ("param", 3), "options")):
+                return "true"
+            if v == ("const", 0):
+                return "false"
+            if v == ("sym", "require_resident_key"):
+                return "require"
+            if is_call(v, "Option::is_some_and") and has(v, lambda x: x == ("field", ("param", 3), "options")):
                 r = closure_ret(p, v[2][1])
-                val = "supports" if r == ("field", ("param", 2), "rk") else "?"
-            elif v[0] == "field" and v[2] == "require_resident_key":
-                val = "require"
-            else:
-                val = "?"
-            T1[key] = val
+                return "supports" if r == ("field", ("param", 2), "rk") else "?"
+            return "?"
+
+        def run_input(crit):
+            rows = S.evaluate(mr, {("param", 2): crit})
+            rows = [r for r in rows if not r.conds]
+            vals = {classify(r.value) for r in rows}
+            return vals.pop() if len(vals) == 1 else "?%s" % sorted(vals)
+
+        for name, rk in (("Required", some(("agg", RKR, "Required", ()))), ("Preferred", some(("agg", RKR, "Preferred", ()))),
+                         ("Discouraged", some(("agg", RKR, "Discouraged", ()))), ("absent", none)):
+            crit = ("agg", ASC, "AuthenticatorSelectionCriteria", tuple((f, rk if f == "resident_key" else ("sym", f)) for f in fields))
+            T1[name] = run_input(some(crit))
+        no_criteria = run_input(none)
         exp = {"Required": "true", "Preferred": "supports", "Discouraged": "false", "absent": "require"}
-        chk.ob("T1 map_rk", "T1|map_rk|table", T1 == exp, where(mr), "extracted %s ; WebAuthn mapping %s" % (T1, exp))
-        chk.ob("T1 map_rk", "T1|map_rk|no-criteria-means-defaults", crit_ok, where(mr), "criteria = request value or an all-default value (residentKey absent, requireResidentKey false): %s" % crit_ok)
+        chk.ob("T1 map_rk", "T1|map_rk|table", T1 == exp, where(mr), "decision table evaluated on residentKey ∈ {required, preferred, discouraged, absent}: %s ; WebAuthn mapping %s" % (T1, exp))
+        chk.ob("T1 map_rk", "T1|map_rk|no-criteria-means-defaults", no_criteria == "false", where(mr),
+               "without authenticatorSelection the result is %s (residentKey absent and requireResidentKey false → false)" % no_criteria)
 
     # ---------------- T2
     T2 = {}
@@ -101,7 +103,7 @@ def run(chk):
         for o in S.outcomes(ipd):
             key = None
             for t, labs, fn, w in o.conds:
-                if t == ("discr", ("param", 1)) and labs[0] == "in" and len(labs) == 2:
+                if flow.is_discr(t, ("param", 1)) and labs[0] == "in" and len(labs) == 2:
                     key = dv.get(labs[1])
             v = o.value
             T2[key] = "rk" if v == ("param", 2) else ("true" if v == ("const", 1) else ("false" if v == ("const", 0) else "?"))
@@ -158,17 +160,19 @@ def run(chk):
         ag = find_aggs(mc, "Passkey")
         if chk.require("R5 stored handle", "R5|Passkey", len(ag) == 1, where(mc), "Passkey construction not found"):
             bb, i, rv = ag[0]
-            uh = flow.simplify_term(T.operand(rv["ops"][rv["fields"].index("user_handle")], bb, i))
-            ok = is_call(uh, "bool::then") or is_call(uh, "bool::then_some")
-            cond = uh[2][0] if ok else None
-            c_ok = cond is not None and is_call(cond, "DiscoverabilitySupport::is_passkey_discoverable") and cond[2][1] == ("field", ("field", ("upvar", 1), "options"), "rk") \
+            uh = N.norm(T.operand(rv["ops"][rv["fields"].index("user_handle")], bb, i))
+            # normal form: a selection on one boolean test with Some(value) on its true edge and None on its false edge
+            sel = {}
+            cond = None
+            for cs, v in normal.cases(uh):
+                for t, l in cs:
+                    a, pol = flow.bool_atom(t, l)
+                    cond = a if cond in (None, a) else ("mixed",)
+                    sel[pol] = v
+            ok = set(sel) == {True, False} and sel[False] == normal.NONE and sel[True][0] == "agg" and sel[True][2] == "Some"
+            c_ok = ok and cond is not None and is_call(cond, "DiscoverabilitySupport::is_passkey_discoverable") and cond[2][1] == ("field", ("field", ("upvar", 1), "options"), "rk") \
                 and has(cond[2][0], lambda x: is_call(x, "CredentialStore::get_info")) and has(cond[2][0], lambda x: x == ("field", ("upvar", 0), "store")) and cond[2][0][0] == "field" and cond[2][0][2] == "discoverability"
-            val = closure_ret(p, uh[2][1]) if ok and uh[2][1][0] == "closure" else (uh[2][1] if ok else None)
-            if ok and uh[2][1][0] == "closure" and val is not None:
-                # substitute the closure's captures
-                caps = uh[2][1][2]
-                for ci, cv in enumerate(caps):
-                    val = summary.replace(val, ("field", ("param", 1), str(ci)), cv)
+            val = dict(sel[True][3]).get("0") if ok else None
             v_ok = val is not None and val == ("field", ("field", ("upvar", 1), "user"), "id")
             chk.ob("R5 stored handle", "R5|user_handle|condition", bool(ok and c_ok), where(mc, bb), "user_handle = %s" % flow.term_str(uh)[:260])
             chk.ob("R5 stored handle", "R5|user_handle|value", bool(v_ok), where(mc, bb), "stored value = %s" % (flow.term_str(val) if val else "?"))
